@@ -215,7 +215,7 @@ class Register:
         while isinstance(size, AnnotatedValue):
             # A register sized by a let constant
             size = size.resolve_value(context)
-        if size is not None and idx >= size:
+        if (size is not None and idx >= size) or idx < 0:
             raise JaqalError("Index out of range.")
         if self.fundamental:
             return (self, idx)
@@ -299,7 +299,7 @@ class NamedQubit:
                 from_size = int(alias_from.size)
             except JaqalError:
                 return
-            if alias_index >= from_size:
+            if alias_index >= from_size or alias_index < 0:
                 raise JaqalError("Index out of range.")
 
     def __hash__(self):
